@@ -40,7 +40,8 @@ func certificatePrefix(id sdk.Address) []byte {
 }
 
 func certificateSerialFromKey(key []byte) big.Int {
-	if len(key) < keyAddrPrefixLen+1 {
+	// serial number zero encodes to an empty suffix
+	if len(key) < keyAddrPrefixLen {
 		panic("invalid key size")
 	}
 
